@@ -11,3 +11,4 @@ open Biogo.Properties.C14
 #print axioms filter_incomplete_pinned
 #print axioms filter_incomplete_flush
 #print axioms filter_incomplete_ticker
+#print axioms ticker_repair_conservative
